@@ -29,6 +29,11 @@ CHECKS = {
    text="Every write script up to the depth bound over sessions (index+data, index-only, data-only channel sets; start on or 1ns before a sample; chunks of 1-3 samples; commit points; auto-commit on/off; sessions placed before, between and after earlier data; two index groups; reopen) for five configurations (fixed 8-byte, 1-byte and variable-length data types; file-size caps that roll every commit, at different rhythms per channel, or never; immediate and close-time index persistence). In every distinct state every half-open read [a,b) with a,b in {0, t-1ns, t, t+1ns, max} is issued for every channel and must return exactly the committed samples in range, once, in order, byte-for-byte; the same after close and reopen.",
    note="in-memory xfs.MemFS; go1.26.8 toolchain; script steps the model considers legal but the engine refuses end that path (property speaks of successful writes); wall-clock index persistence covered as its two extremes; series time ranges/alignments are part of the canonical state but not judged.",
    design="3/C01"),
+ "C04": dict(level="model_checking", engine="seqx",
+   technique="explicit-state BFS over delete/GC/reopen/write histories on the real cesium.DB from several stored layouts, reference map with deleted timestamps removed, full read sweep in every state",
+   text="From five stored layouts (one domain; contiguous rolled-over domains; a data domain spanning several index domains; gapped sessions; back-filled sessions sharing data files) every history up to the depth bound of delete(channel set, [a,b)) with bounds on / 1ns before / 1ns after samples and beyond the data, synchronous GC passes (through the verif hook, also after a reopen so that sub-cap files are collectable), reopen, and new write sessions into holes. After every step every half-open read over {0,t-1ns,t,t+1ns,max} of every channel must equal the reference minus the deleted timestamps; un-named channels untouched; an index delete must be refused while an un-named dependant has samples in range; GC must change no read.",
+   note="in-memory xfs.MemFS; go1.26.8 toolchain; deletes only while no writer is open; deletes the engine refuses although legal are counted as observations (state must be unchanged or per-channel exactly deleted), not judged; file sizes recorded, not judged.",
+   design="3/C04"),
 }
 NOT_YET = {}
 props = [json.loads(l) for l in open(os.path.join(HERE, "properties.jsonl"))]
